@@ -10,6 +10,7 @@ import (
 	"sort"
 	"strconv"
 	"strings"
+	"time"
 
 	"github.com/vektah/gqlparser/v2/ast"
 )
@@ -118,6 +119,9 @@ type Quirks struct {
 	NoMergeAcrossUnrelatedConditions bool
 	// D17: typed-nil pointer at a non-null abstract position: null without an error.
 	TypedNilNoError bool
+	// a null element of a non-null SCALAR list is reported at the list's path, without the
+	// element index (scalar list elements get no field context of their own)
+	ScalarElemErrorAtList bool
 }
 
 type Ref struct {
@@ -534,13 +538,27 @@ func (r *Ref) complete(t *ast.Type, objPath, path, fieldName, outcome string, fi
 		for i := 0; i < n; i++ {
 			ep := elemPath(path, i)
 			var ev *Val
-			if r.isLeaf(t.Elem.NamedType) && t.Elem.Elem == nil {
+			leaf := r.isLeaf(t.Elem.NamedType) && t.Elem.Elem == nil
+			// leaf elements can be null only where the Go element type can express it:
+			// nullable elements ([]*string) and Time (the zero time marshals to null)
+			if leaf && t.Elem.NonNull && t.Elem.NamedType != "Time" {
 				ev, _ = r.complete(t.Elem, objPath, ep, fieldName, "value", fields)
 			} else {
-				r.Positions = append(r.Positions, Position{Path: ep, Kind: "element", GQLType: t.Elem.String(), Nilable: true})
-				if r.Plan.Get(ep) == "null" {
-					ev = r.nonNullCheck(t.Elem, ep, Null)
-				} else {
+				abstract := t.Elem.Elem == nil && r.isAbstract(t.Elem.NamedType)
+				r.Positions = append(r.Positions, Position{Path: ep, Kind: "element", GQLType: t.Elem.String(), Nilable: true, Abstract: abstract})
+				switch eo := r.Plan.Get(ep); eo {
+				case "null":
+					if leaf && r.Quirks.ScalarElemErrorAtList {
+						ev = Null
+						if t.Elem.NonNull && !r.errAt[path] {
+							r.addErr(path, "nonnull")
+						}
+					} else {
+						ev = r.nonNullCheck(t.Elem, ep, Null)
+					}
+				case "alt":
+					ev, _ = r.complete(t.Elem, objPath, ep, fieldName, "alt", fields)
+				default:
 					ev, _ = r.complete(t.Elem, objPath, ep, fieldName, "value", fields)
 				}
 			}
@@ -587,6 +605,8 @@ func parentOf(path string) string {
 // function, so reference and implementation agree on every leaf.
 func LeafJSON(typeName, objPath, field, path string) string {
 	switch typeName {
+	case "Time":
+		return strconv.Quote(LeafTime.Format(time.RFC3339Nano))
 	case "Int":
 		return strconv.Itoa(LeafInt(objPath, field))
 	case "Boolean":
@@ -597,6 +617,9 @@ func LeafJSON(typeName, objPath, field, path string) string {
 		return strconv.Quote(LeafString(objPath, field))
 	}
 }
+
+// LeafTime is the value of every Time leaf.
+var LeafTime = time.Date(2021, 1, 2, 3, 4, 5, 0, time.UTC)
 
 func LeafString(objPath, field string) string { return field + "@" + objPath }
 
